@@ -306,6 +306,25 @@ def run(ck, P):
                 bad = ("same-topic/same-flags path: allocations %s, returns %s" % ([e.callee for e in allocs], rets), path)
     ck.ob("C09.7-SUBSCRIPTIONS", sb.site("update in place"), bad is None and n > 0, "%d path(s) update the user pointer in place" % n if bad is None else bad[0],
           path=rules.fmt_path(sb, bad[1]) if bad else None)
+    # the compiled regex is released on the in-place path, and a replaced subscription is removed (with its key) before the new one goes in
+    bad2 = None
+    n2 = 0
+    puts = [e for e in sb.calls("m_map_put")]
+    for path in sb.paths():
+        a = rules.path_assumes(path)
+        evs = list(rules.path_events(sb, path))
+        if a.get("old_sub") is True and a.get("(old_sub->flags == flags)") is True:
+            if not any(e.kind == "call" and e.callee == "regfree" and S(e.args[0]) == "&regex" for e in evs):
+                bad2 = ("in-place update returns without regfree(&regex): the freshly compiled expression leaks", path)
+        if a.get("old_sub") is True and a.get("(old_sub->flags == flags)") is False and any(e in puts for e in evs):
+            n2 += 1
+            rm_ = [e for e in evs if e.kind == "call" and e.callee == "m_map_remove" and "subscriptions" in S(e.args[0])]
+            if not rm_ or evs.index(rm_[0]) > min(evs.index(e) for e in puts if e in evs):
+                bad2 = ("replacing a subscription (flags changed) keeps the old map entry: its key is the old subscription's own topic, freed with it when "
+                        "it was duplicated (M_SRC_DUP) — later lookups compare against freed memory", path)
+    ck.ob("C09.7-SUBSCRIPTIONS", sb.site("replace removes old entry; regex released"), bad2 is None and n2 > 0,
+          "%d replacing path(s) remove the old entry first; the in-place path releases the compiled regex" % n2 if bad2 is None else bad2[0],
+          path=rules.fmt_path(sb, bad2[1]) if bad2 else None)
     mk = [e for e in sb.events() if e.kind == "assign" and S(e.lhs) == "mod->subscriptions" and strip(e.rhs).get("callee") == "m_map_new"]
     okm = bool(mk) and all((cval(strip(e.rhs)["args"][0]) or 0) & E["M_MAP_VAL_ALLOW_UPDATE"] and S(strip(e.rhs)["args"][1]) == "mem_dtor" for e in mk)
     ck.ob("C09.7-SUBSCRIPTIONS", sb.site("map allows update"), okm, "subscriptions map = %s" % [S(e.rhs) for e in mk])
